@@ -42,6 +42,18 @@ def extra_grid():
     for ma, mb in gen.twin_makers():
         ps += [ma(), mb(), ma()]
         ps += [gen.mk("or", ma(), ma()), gen.mk("or", ma(), mb()), gen.mk("and", mb(), ma()), gen.mk("and", mb(), mb())]
+    # classes with list-/object-valued parameters
+    import re as _re
+    from predicate.standard_predicates import is_dict_of_p, is_int_p, is_str_p, is_tuple_of_p, has_key_p
+    ps += [is_dict_of_p(("a", is_int_p)), is_dict_of_p(("a", is_int_p), ("b", is_str_p)), is_dict_of_p(("b", is_str_p), ("a", is_int_p)),
+           is_dict_of_p(("a", is_str_p)), is_dict_of_p((is_str_p, is_int_p)), is_dict_of_p(("a", is_int_p)),
+           is_tuple_of_p(is_int_p), is_tuple_of_p(is_int_p, is_str_p), is_tuple_of_p(is_str_p, is_int_p), is_tuple_of_p(is_int_p, is_int_p), is_tuple_of_p(),
+           regex_p("foo"), regex_p("foo"), regex_p("Foo"), regex_p("a.b"), has_key_p("a"), has_key_p("b")]
+    for rx in (_re.compile("foo", _re.IGNORECASE), _re.compile("a.b", _re.DOTALL), _re.compile("foo")):
+        try:
+            ps.append(regex_p(rx))          # only where the library accepts a compiled pattern
+        except Exception:  # noqa: BLE001
+            pass
     return ps
 
 
@@ -76,7 +88,8 @@ def correspondence(payload):
 
 def search(payload):
     ps = grid() + extra_grid()
-    values = VALUES + [v for v in gen.TWIN_VALUES if not any(v is w or (type(v) is type(w) and v == w) for w in VALUES)] + [11, -1, 100]
+    values = VALUES + [v for v in gen.TWIN_VALUES if not any(v is w or (type(v) is type(w) and v == w) for w in VALUES)] + [11, -1, 100] + [
+        "foo", "FOO", "Foo", "a\nb", "axb", {"a": 1}, {"a": 1, "b": "x"}, {"b": "x"}, {"a": "s"}, {"k": 2}, (1,), (1, "a"), ("a", 1), (1, 2)]
     fails, n = [], 0
     for i, p in enumerate(ps):
         if not (p == p):
